@@ -87,6 +87,7 @@ type stats struct {
 	Property   string           `json:"property"`
 	Runs       int              `json:"runs"`
 	Invalid    int              `json:"invalid"`
+	Skipped    int              `json:"skipped"`
 	Nontrivial int              `json:"nontrivial"`
 	Steps      int64            `json:"steps"`
 	Evals      int64            `json:"evals"`
@@ -431,7 +432,7 @@ func firstN(s string, n int) string {
 type evidence struct {
 	prop, tier                                 string
 	seed                                       uint64
-	runs, invalid, nontrivial                  int
+	runs, invalid, nontrivial, skipped         int
 	steps, evals                               int64
 	probes, faults                             map[string]int
 	hll                                        *core.HLL
@@ -450,6 +451,7 @@ type evidence struct {
 func (e *evidence) merge(st *stats) {
 	e.runs += st.Runs
 	e.invalid += st.Invalid
+	e.skipped += st.Skipped
 	e.nontrivial += st.Nontrivial
 	e.steps += st.Steps
 	e.evals += st.Evals
@@ -513,6 +515,7 @@ func (e *evidence) write(path string) {
 		"exhaustive":                        false,
 		"simulated_runs":                    e.runs,
 		"runs_discarded_workload_invalid":   e.invalid,
+		"runs_abandoned_by_design":          e.skipped,
 		"workload_invalid_reasons":          e.invalidWhy,
 		"nontrivial_runs":                   e.nontrivial,
 		"scheduler_steps":                   e.steps,
